@@ -115,7 +115,7 @@ func runC13Turn(c *Ctx) {
 	}
 	visit(f, 1, 0)
 	if n < 2 {
-		c.Errorf("monotoneChain has %d orientation tests, expected 2 (lower and upper hull)", n)
+		c.Bad(f.Pos(), FuncName(f), "turn tests of the two chains", fmt.Sprintf("monotoneChain (with the helpers it calls) makes %d of its pop decisions with geom.orientation, the exact sign of the cross product; both chains must: a turn test computed another way (normalised legs, a tolerance) is not exactly zero for collinear points, so collinear vertices survive on one chain and not on the other", n))
 	}
 }
 
